@@ -32,7 +32,8 @@ CHECKS = {
              "reference reading of the documented wrapping rules (text preserved modulo blanks at breaks, marker on "
              "every broken line, breaks only at hints, always at form feeds, over-long lines only without an interior "
              "hint); corpus and generated libraries are regenerated at drawn line lengths and must be token-identical, "
-             "with no Fortran code line over 132 columns.",
+             "with no Fortran code line over 132 columns (also for libraries with long identifiers and eight-fold overload "
+             "sets) and no tab / form feed / carriage return left in any output.",
         note="Assumes the documented preconditions of write_continue (non-empty line, no trailing form feed). "
              "Lexers in vf/lex.py are the trusted base for the metamorphic part.",
     ),
@@ -47,7 +48,8 @@ CHECKS = {
              "shroud/ (parser messages must carry the text and a caret), never an internal exception or a hang; text "
              "after the terminating ';', unbalanced brackets and the documented illegal attribute combinations must be "
              "rejected; every attribute name x value form x site is pushed through the whole pipeline; the real command "
-             "line must exit non-zero with a message and write no wrapper source.",
+             "line must exit non-zero with a message and write no wrapper source; declarations the parser accepts are pushed "
+             "through the whole pipeline and must end in wrappers or a diagnostic.",
         note="Classification of diagnostic vs internal follows the exception classes named in the property. Must-reject "
              "sets are restricted to provably ill-formed text. Failures are bucketed by (exception type, innermost "
              "shroud frame) and token-minimised.",
@@ -71,7 +73,9 @@ CHECKS = {
                   "assignments and per-declaration overrides judged against single-language reference runs",
         design_ref="DESIGN.md section 4, C15",
         text="For generated libraries (unique function names) and corpus entries, every drawn combination of wrap_c/"
-             "fortran/python/lua, assignment of the output-directory options and per-declaration switch-off is run; "
+             "fortran/python/lua, assignment of the output-directory options and per-declaration override (switch off a "
+             "free function or one member of an overload set; switch on against the library level at any namespace "
+             "depth) is run; "
              "files are classified by single-language reference runs with all directories distinct. Checked: an "
              "off language writes nothing; every file lies in its designated directory and every expected file is "
              "there; --cfiles/--ffiles equal the C/C++ and Fortran files present; a python/lua toggle leaves C/Fortran "
@@ -90,7 +94,8 @@ CHECKS = {
         text="Six relations over generated libraries and corpus entries: function-scoped option/format field on a "
              "container == on each contained function; a setting on one function leaves every sibling's generated pieces "
              "byte-identical; inline +attr == attrs:/fattrs:; --option/--language == YAML fields (bool, int and string "
-             "options, both boolean spellings); wrapping a span of declarations in an empty block is transparent; "
+             "options, both boolean spellings); wrapping a span of declarations of the library, a namespace or a class in an "
+             "empty block is transparent; "
              "create_wrapper == command line.",
         note="Relation a is restricted to a curated list of settings that are read from the function's own scope "
              "(listed with their reading site in vf/props/c14.py); .json/.log are excluded from the comparison; sibling "
@@ -118,7 +123,9 @@ CHECKS = {
              "(command-line splicer file, YAML splicer: list + --path, splicer_code, declaration-level, with junk outside "
              "markers and a losing file body against a declaration-level one); the regenerated block must equal the body "
              "modulo leading indentation and trailing blanks, unsupplied blocks keep their content, and feeding all "
-             "generated files back as splicer files reproduces every block.",
+             "generated files back as splicer files reproduces every block; marker lines are indented by drawn amounts, the "
+             "scope part of every block name must match the namespace / class position of its declaration, and a "
+             "declaration-level Fortran splicer must appear also for functions that need no wrapper otherwise.",
         note="Domain as stated by the property: body lines do not begin with a formatting metacharacter. Lines ending in "
              "'+' or containing a tab are probed separately and are recorded known findings. Getter/setter bodies of "
              "member variables (forced by Shroud) and ambiguous block names are excluded.",
@@ -215,7 +222,9 @@ CHECKS = {
              "delete again / owned and borrowed results / plain calls; after every step the library's live-object count "
              "and the whole call stream must equal the reference model, objects the caller still owns are released at the "
              "end, and ASan/LSan must report nothing (use after free, double free, mismatched deallocator, leaked "
-             "temporaries). The C01/C02 call plans with strings and arrays of every generated length are re-run under ASan.",
+             "temporaries). Histories over three capsule variables holding caller-owned pointer results (released by free() or by "
+             "a free_pattern; re-use of a capsule, delete, delete again, finalisation) must give every buffer back exactly "
+             "once. The C01/C02 call plans with strings, arrays and vectors of every generated length are re-run under ASan.",
         note="Histories stay inside defined behaviour of the direct C++ API. The Python front end is not part of this "
              "check. Upstream test programs are not used (not sanitizer-clean by themselves).",
     ),
@@ -261,11 +270,14 @@ CHECKS = {
              "generics) are wrapped under drawn combinations of F_CFI, debug, doxygen, show_splicer_comments, "
              "literalinclude2 and line lengths 40..132: Shroud must succeed, headers compile alone as C and C++, all "
              "sources compile, Fortran modules compile in --ffiles order, everything links with -Wl,--no-undefined, the "
-             "Python extension imports with LD_BIND_NOW. Corpus entries that build in their default configuration must "
+             "Python extension imports with LD_BIND_NOW. (Stratified: every kind of declaration - class, nested namespaces, overload, "
+             "default, template, class template, generic, enum, struct, forward-declared class pair - occurs in every run.) Corpus entries that build in their default configuration must "
              "build with drawn option variants, and the Python/Lua modules upstream compiles must compile.",
         note="Lua is compiled against the emulator headers, not a real Lua. numpy-using sources are compiled against the "
              "numpy headers installed into .deps by setup_cmd (skipped if absent). std::vector with F_CFI is a recorded "
-             "known finding (excluded, probed).",
+             "known finding (excluded, probed), as is a Python class argument by non-const reference. Libraries without a "
+             "subject library are not linked; instead every Shroud helper symbol a generated object calls must be "
+             "defined by a generated object.",
     ),
     "C04": dict(
         level="translation_validation",
@@ -279,7 +291,8 @@ CHECKS = {
              "position-wise interoperable classes (scalar kind and size, value vs reference, character, void*/T**, struct "
              "pointer of equal layout, CFI descriptor, function pointer) and an interoperable result. bind(C) derived types "
              "are compared with their C structs via sizeof/offsetof vs c_sizeof/c_loc, and the SH_TYPE_* tables are "
-             "evaluated by gcc and gfortran and compared name by name.",
+             "evaluated by gcc and gfortran and compared name by name; enumerators of generated C headers and the parameters of "
+             "the generated modules are compared the same way.",
         note="Trusted base: clang 14 AST, gcc/gfortran 12 on x86-64, the interoperability rule table in vf/iface.py; "
              "gfortran -fc-prototypes cross-checks the reader's arity (disagreement = harness error). Interfaces inside "
              "preprocessor conditionals are only checked when the C side is compiled too.",
